@@ -47,6 +47,46 @@ def h_matmul(env, N, dtype='int64'):
         env.goal('swap_phase', eq(C.p, (D.p + 2 * a.value) % 4))
 
 
+def h_augmented(env, N, alias):
+    """acc @= q: the accumulated product is right and no other operator changes -- neither another name for the initial
+    operand, nor a phase-shifted partner (-a, 1j*a), nor the list row it was taken from"""
+    M = Mods(env)
+    g = env.bits('g', (2, 2 * N))
+    p = env.phases('p', (2,))
+    lst = M.pa.PauliList(g.copy(), p.copy())
+    a = M.pa.Pauli(g[0].copy(), p[0]) if alias != 'row' else lst[0]
+    b = M.pa.Pauli(g[1].copy(), p[1])
+    if alias == 'same':
+        acc, shift = a, 0
+    elif alias == 'neg':
+        acc, shift = -a, 2
+    elif alias == 'times_i':
+        acc, shift = 1j * a, 1
+    else:
+        acc, shift = a, 0
+
+    def run():
+        x = acc
+        x @= b
+        x @= a
+        return x
+    r = env.run(run)
+    env.goal('no_exception', b_not(r.raised))
+    if r.value is None:
+        return
+    g1, p1 = ref.ref_mul(g[0], (p[0] + shift) % 4, g[1], p[1])
+    g2, p2 = ref.ref_mul(g1, p1, g[0], p[0])
+    env.goal('accumulated_product', b_and(arr_eq(r.value.g, g2), eq(r.value.p, p2)))
+    if alias != 'same':
+        env.goal('initial_operand_unchanged', b_and(arr_eq(a.g, g[0]), eq(a.p, p[0])))
+    env.goal('right_operand_unchanged', b_and(arr_eq(b.g, g[1]), eq(b.p, p[1])))
+    env.goal('list_unchanged', b_and(arr_eq(lst.gs, g), arr_eq(lst.ps, p)))
+    again = env.run(lambda: a @ b)
+    if alias != 'same' and again.value is not None:
+        ge, pe = ref.ref_mul(g[0], p[0], g[1], p[1])
+        env.goal('plain_product_afterwards', b_and(arr_eq(again.value.g, ge), eq(again.value.p, pe)))
+
+
 def h_assoc(env, N):
     M = Mods(env)
     g = env.bits('g', (3, 2 * N))
@@ -230,6 +270,9 @@ def jobs(tier):
         for L1 in (1, 2):
             for L2 in (1, 2):
                 J.append(dict(harness=('c01', 'h_batch_dot'), params=dict(N=N, L1=L1, L2=L2)))
+    for N in (1, 2):
+        for alias in ('same', 'neg', 'times_i', 'row', 'fresh'):
+            J.append(dict(harness=('c01', 'h_augmented'), params=dict(N=N, alias=alias)))
     for N in (1, 2, 3):
         J.append(dict(harness=('c01', 'h_matmul_views'), params=dict(N=N)))
     for N in (1, 2) if tier == 'quick' else (1, 2, 3):
